@@ -59,7 +59,8 @@ class SeismicZfpBackendEntrypoint(BackendEntrypoint):
 
         shape = (sgz_reader.n_ilines, sgz_reader.n_xlines, sgz_reader.n_samples)
 
-        vars = {"data": (("il", "xl", "z"), SeismicZfpBackendArray(shape, np.float32, sgz_reader))}
+        backend_array = SeismicZfpBackendArray(shape, np.float32, sgz_reader)
+        vars = {"data": (("il", "xl", "z"), indexing.LazilyIndexedArray(backend_array))}
         coords = {"il": sgz_reader.ilines, "xl": sgz_reader.xlines, "z": sgz_reader.zslices}
 
         ds = xr.Dataset(data_vars=vars, coords=coords)
